@@ -21,6 +21,8 @@ namespace GPy.C05
 
 /-- Python exception classes other than StopIteration (none of them a subclass of it). -/
 inductive Exc | value | key | type | zeroDiv | index | runtime | attr | lookup
+  /-- GeneratorExit (a BaseException, not an Exception): what `generator.close()` throws -/
+  | genExit
 deriving DecidableEq, Repr, Inhabited
 
 inductive Val | int (i : Int) | str (s : String) | pair (a b : Val) | none
@@ -174,6 +176,28 @@ def builtinSorted (sort : List Val → Except Exc (List Val)) (next : σ → Res
   | .err e => .err e.toPy
   | .fuel => .fuel
 
+/-- `l.extend(it)` / `l += it` for `it` not a list: `List.ExtendSequence` onto the items the list already has -/
+def listExtend (next : σ → Resp × σ) (fuel : Nat) (s : σ) (init : List Val) : Out :=
+  match iterate next (fun (l : List Val) item => (l ++ [item], false)) fuel s init with
+  | .done t => .list t
+  | .err e => .err e.toPy
+  | .fuel => .fuel
+
+/-- `s.update(it)`: `SequenceSet(it)` first, then every member is added to `s` -/
+def setUpdate (next : σ → Resp × σ) (fuel : Nat) (s : σ) (init : List Val) : Out :=
+  match iterate next (fun (t : List Val) item => (setAdd t item, false)) fuel s [] with
+  | .done t => .set (t.foldl setAdd init)
+  | .err e => .err e.toPy
+  | .fuel => .fuel
+
+/-- consumers that read the whole iterable with `SequenceList` and then compute on the list
+(`dict(it)` / `d.update(it)` through `DictNew`, `sorted(it, key=…)`, `l[a:b] = it` through `SequenceTuple`) -/
+def collectThen (fin : List Val → Out) (next : σ → Resp × σ) (fuel : Nat) (s : σ) : Out :=
+  match sequenceListRaw next fuel s with
+  | .done t => fin t
+  | .err e => .err e.toPy
+  | .fuel => .fuel
+
 /-! ## py/string.go: String.Join -/
 
 def joinK (k0 k1 : TestKind) (sep : String) (next : σ → Resp × σ) : Nat → Bool → σ → List String → Out
@@ -315,28 +339,41 @@ def sumK (k : TestKind) (add : Val → Val → Except Exc Val) (next : σ → Re
 def builtinSum (add : Val → Val → Except Exc Val) (next : σ → Resp × σ) (fuel : Nat) (s : σ) (start : Val) :=
   sumK Generated.k_stdlib_builtin_builtin_builtin_sum_0 add next fuel s start
 
-/-- `min_max` without key; `cmp a b` is `py.Le`/`py.Ge` followed by `== True`; `best = none` is `maxItem == nil` -/
-def minMaxK (k : TestKind) (cmp : Val → Val → Except Exc Bool) (next : σ → Resp × σ) : Nat → σ → Option Val → Out
-  | 0, _, _ => .fuel
-  | n + 1, s, best =>
+/-- `min_max`; `key v` is `py.Call(kf, item)` (the identity when no `key=` is given: `maxVal = item`), `cmp a b` is
+`py.Le`/`py.Ge` followed by `== True`; `best = none` is `maxVal == nil`, otherwise `(maxVal, maxItem)`.
+The default is looked at only after the loop, when no item was seen. -/
+def minMaxKeyK (k : TestKind) (key : Val → Except PyErr Val) (cmp : Val → Val → Except Exc Bool) (next : σ → Resp × σ) :
+    Nat → σ → Option (Val × Val) → Option Val → Out
+  | 0, _, _, _ => .fuel
+  | n + 1, s, best, dflt =>
     match next s with
     | (.err e, _) =>
       match k.classify e with
       | .exhausted =>
         match best with
-        | none => .err (.exc .value)     -- "arg is an empty sequence"
-        | some b => .val b
+        | none =>
+          match dflt with
+          | some d => .val d
+          | none => .err (.exc .value)     -- "arg is an empty sequence"
+        | some b => .val b.2
       | .propagate => .err e.toPy
     | (.item v, s') =>
-      match best with
-      | none => minMaxK k cmp next n s' (some v)
-      | some b =>
-        match cmp v b with
-        | .error e => .err (.exc e)
-        | .ok changed => minMaxK k cmp next n s' (some (if changed then v else b))
+      match key v with
+      | .error e => .err e
+      | .ok kv =>
+        match best with
+        | none => minMaxKeyK k key cmp next n s' (some (kv, v)) dflt
+        | some b =>
+          match cmp kv b.1 with
+          | .error e => .err (.exc e)
+          | .ok changed => minMaxKeyK k key cmp next n s' (some (if changed then (kv, v) else b)) dflt
 
+def minMaxKey (key : Val → Except PyErr Val) (cmp : Val → Val → Except Exc Bool) (next : σ → Resp × σ) (fuel : Nat) (s : σ) (dflt : Option Val) :=
+  minMaxKeyK Generated.k_stdlib_builtin_builtin_min_max_0 key cmp next fuel s none dflt
+
+/-- `min`/`max` without `key=` -/
 def minMax (cmp : Val → Val → Except Exc Bool) (next : σ → Resp × σ) (fuel : Nat) (s : σ) (dflt : Option Val) :=
-  minMaxK Generated.k_stdlib_builtin_builtin_min_max_0 cmp next fuel s dflt
+  minMaxKey (fun v => .ok v) cmp next fuel s dflt
 
 /-- `builtin_next(it[, default])` -/
 def builtinNextK (k : TestKind) (next : σ → Resp × σ) (s : σ) (dflt : Option Val) : Out :=
@@ -419,6 +456,12 @@ inductive RunOut
   | raise (e : NextErr)
 deriving DecidableEq, Repr, Inhabited
 
+/-- how `VmRunFrame` is entered: the first time (nothing pushed), with a sent value pushed on the
+frame's stack, or with `Frame.Throw` set (generator.throw/close: the exception is raised at the
+suspended yield before any instruction is fetched) -/
+inductive Entry | first | send (v : Val) | throw (e : NextErr)
+deriving DecidableEq, Repr, Inhabited
+
 /-- `py.Generator` with its frame; `φ` is everything of the frame the generator object does not
 look at (code position beyond "is Lasti 0", locals, value stack, block stack). -/
 structure GenObj (φ : Type) where
@@ -432,30 +475,62 @@ deriving Repr
 /-- `NewGenerator(frame)` -/
 def newGenerator {φ : Type} (frame : φ) : GenObj φ := { fresh := true, yielded := false, running := false, frame := frame }
 
-/-- `Generator.Send(arg)`; `run sent frame` is `VmRunFrame` (`sent = none` on the first entry, otherwise
-the value pushed on the frame's stack).  Third component: whether `VmRunFrame` was called.
-(RunFrame always executes at least one instruction, so afterwards `Lasti ≠ 0`.) -/
-def GenObj.send {φ : Type} (run : Option Val → φ → RunOut × φ) (g : GenObj φ) (arg : Val) : Resp × GenObj φ × Bool :=
+/-- `Generator.resume(arg, exc)`: `exc = none` is `Send(arg)`, `exc = some e` is the core of `Throw`/`Close`.
+`run entry frame` is `VmRunFrame`.  Third component: whether `VmRunFrame` was called.
+(RunFrame always executes at least one instruction or raises, so afterwards `Lasti ≠ 0`.) -/
+def GenObj.resume {φ : Type} (run : Entry → φ → RunOut × φ) (g : GenObj φ) (arg : Val) (exc : Option NextErr) :
+    Resp × GenObj φ × Bool :=
   if g.running then (.err (.other .value), g, false)     -- "generator already executing"
+  else if g.fresh && exc.isSome then
+    -- raised before the first instruction: `Lasti = len(Code)`, the body never runs
+    (.err (exc.getD .stopType), { g with fresh := false, yielded := false }, false)
   else if g.fresh && arg != .none then (.err (.other .type), g, false)   -- "can't send non-None value to a just-started generator"
-  else if !g.fresh && !g.yielded then (.err .stopType, g, false)         -- already returned / raised
+  else if !g.fresh && !g.yielded then (.err (exc.getD .stopType), g, false)   -- already returned / raised
   else
-    let sent := if g.fresh then none else some arg      -- it.Frame.Stack = append(it.Frame.Stack, arg)
+    -- `exc == nil`: it.Frame.Stack = append(it.Frame.Stack, arg) (not on the first entry); else it.Frame.Throw = exc
+    let entry : Entry := match exc with
+      | some e => .throw e
+      | none => if g.fresh then .first else .send arg
     -- it.Running = true; res, err := VmRunFrame(it.Frame); it.Running = false
-    match run sent g.frame with
+    match run entry g.frame with
     | (.raise e, fr) => (.err e, { fresh := false, yielded := false, running := false, frame := fr }, true)
     | (.yield v, fr) => (.item v, { fresh := false, yielded := true, running := false, frame := fr }, true)
     | (.ret v, fr) =>
       let g' : GenObj φ := { fresh := false, yielded := false, running := false, frame := fr }
       if v != .none then (.err (.stopExc v), g', true) else (.err .stopType, g', true)
 
+/-- `Generator.Send(arg)` -/
+def GenObj.send {φ : Type} (run : Entry → φ → RunOut × φ) (g : GenObj φ) (arg : Val) : Resp × GenObj φ × Bool :=
+  g.resume run arg none
+
+/-- `Generator.Throw(exc)` after the argument parsing (`e` is the exception instance built from typ/val) -/
+def GenObj.throw {φ : Type} (run : Entry → φ → RunOut × φ) (g : GenObj φ) (e : NextErr) : Resp × GenObj φ × Bool :=
+  g.resume run .none (some e)
+
+/-- `IsException(GeneratorExit, err)` -/
+def NextErr.isGenExit : NextErr → Bool
+  | .other .genExit => true
+  | _ => false
+
+/-- `Generator.Close()`: `none` = returns None, `some e` = raises `e` -/
+def GenObj.close {φ : Type} (run : Entry → φ → RunOut × φ) (g : GenObj φ) : Option NextErr × GenObj φ × Bool :=
+  let r := g.resume run .none (some (.other .genExit))
+  match r.1 with
+  | .item _ => (some (.other .runtime), r.2)          -- "generator ignored GeneratorExit"
+  | .err e => if e.isStop || e.isGenExit then (none, r.2) else (some e, r.2)
+
 /-- `Generator.M__next__` -/
-def GenObj.next {φ : Type} (run : Option Val → φ → RunOut × φ) (g : GenObj φ) : Resp × GenObj φ × Bool := g.send run .none
+def GenObj.next {φ : Type} (run : Entry → φ → RunOut × φ) (g : GenObj φ) : Resp × GenObj φ × Bool := g.send run .none
 
 /-- `py.Next` on a generator, as an iterator state machine -/
-def genNext {φ : Type} (run : Option Val → φ → RunOut × φ) (g : GenObj φ) : Resp × GenObj φ :=
+def genNext {φ : Type} (run : Entry → φ → RunOut × φ) (g : GenObj φ) : Resp × GenObj φ :=
   let r := g.next run
   (r.1, r.2.1)
+
+/-- the value a frame finds on top of its stack where a `yield` expression was suspended -/
+def Entry.sent : Entry → Val
+  | .send v => v
+  | _ => .none
 
 /-- The part of a generator frame that sits in `r = yield from x`, as `run` of the delegating frame:
 `do_YIELD_FROM` with `u` the value on top (sent value or None on first entry): `Next(x)` if `u == None`
@@ -473,11 +548,11 @@ def yieldFromStep (kd : TestKind) (xnext : σ → Resp × σ) (xsend : σ → Va
   | (.item v, x') => .inl (.yield v, x')
 
 /-- frame of `def outer(x): r = yield from x; return r` : `inl x` = delegating to `x`, `inr ()` = finished -/
-def delegRun (xnext : σ → Resp × σ) (xsend : σ → Val → Resp × σ) (sent : Option Val) (fr : σ ⊕ Unit) : RunOut × (σ ⊕ Unit) :=
+def delegRun (xnext : σ → Resp × σ) (xsend : σ → Val → Resp × σ) (ent : Entry) (fr : σ ⊕ Unit) : RunOut × (σ ⊕ Unit) :=
   match fr with
   | .inr () => (.ret .none, .inr ())
   | .inl x =>
-    match yieldFromStep Generated.k_vm_eval_do_YIELD_FROM_0 xnext xsend (sent.getD .none) x with
+    match yieldFromStep Generated.k_vm_eval_do_YIELD_FROM_0 xnext xsend ent.sent x with
     | .inl (o, x') => (o, .inl x')
     | .inr (v, _) => (.ret v, .inr ())     -- `return r`
 
